@@ -20,6 +20,8 @@
 //	efbig save <limit> <oldhex|none> <tree> | efbig wf <limit> <oldhex|none> <newhex>
 //	                                   the save runs in a child whose writes fail with EFBIG past <limit> bytes
 //	                                   (RLIMIT_FSIZE, SIGXFSZ ignored) -> ok new | err old | <ret> torn:<hex> …
+//	fav4 <hex> | fav4t <tree>          only a .fav4 (these bytes / the reference image of the tree, no version word)
+//	                                   exists: Load migrates it -> ok <hex of the new .fav> <dump of a 2nd Load> | err | PANIC
 //	conc <writers> <millis> <seed>     overlapping ptt.WriteFavorites calls for one user + a reader (P-hat only) -> whole | torn …
 //
 // <tree> := item*      item := B <attr> <bid> <lastvisit> <battr> | L <attr> <lid> | F <attr> <fid> <titlehex> [ item* ]
@@ -603,6 +605,27 @@ func efbigChild(args []string) {
 	}
 }
 
+// fav4Case: only .fav4 exists; fav.Load migrates it (TryFav4Load: read, Save). The answer carries the
+// new .fav and what a second Load makes of it.
+func fav4Case(img []byte) string {
+	cleanDir(uid)
+	if err := os.WriteFile(filepath.Join(userDir(env.Home, uid), fav.FAV4), img, 0o644); err != nil {
+		panic(err)
+	}
+	return hx.CallT(10*time.Second, func() string {
+		f, err := fav.Load(uid)
+		if err != nil || f == nil {
+			return "err"
+		}
+		now := readFav(uid)
+		g, err := fav.Load(uid)
+		if err != nil {
+			return "ok " + now + " err"
+		}
+		return "ok " + now + " " + dumpFav(g)
+	})
+}
+
 var efbigCache = map[string]string{}
 
 // efbigRun runs the child for the limits [from,to] and fills efbigCache (key: the op line).
@@ -987,6 +1010,54 @@ func execOp(line string) (res result) {
 			res.fails = append(res.fails, [2]string{key, fmt.Sprintf("writes failing with EFBIG past %d bytes: the save returned %s but .fav holds the %s version", lim, g[0], state)})
 		case g[0] == "PANIC":
 			res.fails = append(res.fails, [2]string{key, "the save panicked on a write error"})
+		}
+	case "fav4", "fav4t":
+		var img []byte
+		var items []*spec
+		if ws[0] == "fav4" {
+			if len(ws) != 2 || !isHex(ws[1]) {
+				return bad()
+			}
+			img = hx.UnHex(ws[1])
+		} else {
+			var err error
+			if items, err = parseTree(ws[1:]); err != nil {
+				return bad()
+			}
+			img = validImage(items)[2:] // a .fav4 has no version word
+		}
+		res.out = fav4Case(img)
+		res.label = ws[0] + ":" + strings.Fields(res.out)[0]
+		if ws[0] == "fav4t" {
+			hasFolder, removed := false, false
+			for _, it := range items {
+				if it.kind == 'F' {
+					hasFolder = true
+				}
+				if it.attr&1 == 0 {
+					removed = true
+				}
+			}
+			if removed {
+				res.label += ":removed-entry"
+			}
+			if hasFolder {
+				res.label += ":folder(unjudged)"
+			} else {
+				// the migration must yield the tree minus exactly the removed entries
+				exp := expectDump(items)
+				g := strings.Fields(res.out)
+				switch {
+				case g[0] != "ok" || len(g) != 3:
+					res.fails = append(res.fails, [2]string{"fav4:migration", "the .fav4 image " + clip(hx.Hex(img)) + " did not migrate: " + clip(res.out)})
+				case g[2] != exp:
+					res.fails = append(res.fails, [2]string{"fav4:migration", "migrated tree " + clip(g[2]) + ", expected " + clip(exp)})
+				default:
+					if d, err := refParse(hx.UnHex(g[1])); err != nil || d != exp {
+						res.fails = append(res.fails, [2]string{"fav4:migration", fmt.Sprintf("the new .fav %s does not decode to the expected tree %s (%v)", clip(g[1]), clip(exp), err)})
+					}
+				}
+			}
 		}
 	case "conc":
 		if len(ws) != 4 {
@@ -1577,7 +1648,7 @@ func main() {
 	favPath = filepath.Join(userDir(env.Home, uid), fav.FAV)
 	selfExe, _ = os.Executable()
 
-	run.Rule = "rt: every tree of depth<=3 with <=2 entries per level and of depth<=2 with <=3 entries per level built through the API alone (smallest first), random larger trees (depth<=6, <=40 entries per level) with overwritten attr/lid/fid/title/lastvisit fields incl. entries without the FAV bit, the API limits (MAX_LINE, MAX_FOLDER, MAX_FAV, board ids) at and past each bound; load: headers with counts from {-32768,-1,0,1,32767}x{-128,-1,0,1,127}^2 x short bodies, every type byte, every truncation of valid files, single-byte corruptions, random bytes; mt: file older/equal/newer/absent; wg/wgt: the byte-level pair WriteFavorites/GetFavorites on contents of every length around 14342 and up to the largest legal file (57350 bytes) and on boundary-size trees (1024 entries: all folders / 10x100 boards / 64x15 boards), every rt additionally compares GetFavorites with the file; efbig: the saving child runs with RLIMIT_FSIZE at EVERY byte offset of the new image (SIGXFSZ ignored: writes fail with EFBIG), trees whose tail holds only folders / titles / lines as well as board-terminated ones, for Save and WriteFavorites; conc: 4-8 goroutines store images of 5 different lengths with ptt.WriteFavorites for one user while a reader reads and loads .fav in a loop; trace+crash: strace on a re-executed saving child, SIGKILL before the k-th write/openat/renameat for every k until the child survives. distinct = distinct op lines; nontrivial = reaches the code under test (not bad-op)"
+	run.Rule = "rt: every tree of depth<=3 with <=2 entries per level and of depth<=2 with <=3 entries per level built through the API alone (smallest first), random larger trees (depth<=6, <=40 entries per level) with overwritten attr/lid/fid/title/lastvisit fields incl. entries without the FAV bit, the API limits (MAX_LINE, MAX_FOLDER, MAX_FAV, board ids) at and past each bound; load: headers with counts from {-32768,-1,0,1,32767}x{-128,-1,0,1,127}^2 x short bodies, every type byte, every truncation of valid files, single-byte corruptions, random bytes; mt: file older/equal/newer/absent; wg/wgt: the byte-level pair WriteFavorites/GetFavorites on contents of every length around 14342 and up to the largest legal file (57350 bytes) and on boundary-size trees (1024 entries: all folders / 10x100 boards / 64x15 boards), every rt additionally compares GetFavorites with the file; fav4/fav4t: only a .fav4 exists (reference images of board/line trees with removed entries at every position, truncations, folder-holding and negative-count images recorded unjudged), Load migrates it; efbig: the saving child runs with RLIMIT_FSIZE at EVERY byte offset of the new image (SIGXFSZ ignored: writes fail with EFBIG), trees whose tail holds only folders / titles / lines as well as board-terminated ones, for Save and WriteFavorites; conc: 4-8 goroutines store images of 5 different lengths with ptt.WriteFavorites for one user while a reader reads and loads .fav in a loop; trace+crash: strace on a re-executed saving child, SIGKILL before the k-th write/openat/renameat for every k until the child survives. distinct = distinct op lines; nontrivial = reaches the code under test (not bad-op)"
 
 	if run.Replay != "" {
 		for _, l := range hx.ReplayOps(run.Replay) {
